@@ -73,6 +73,7 @@ PoolReturn(r) ==
     /\ UNCHANGED grp
 
 PNext ==
+    \/ Start(TRUE) /\ UNCHANGED <<pool, grp>>
     \/ \E r \in Rids, c \in PoolCalls : Call(r, c) /\ UNCHANGED <<pool, grp>>
     \/ \E r \in Rids :
           \/ (FetchDomain(r) \/ DomainResp(r) \/ SignEnd(r)) /\ UNCHANGED <<pool, grp>>
